@@ -727,3 +727,23 @@ mod tests {
         assert_eq!(ssrc, 0x12345678);
     }
 }
+
+/// Verification hooks: plain forwards to private items, no logic.
+#[cfg(feature = "verif-hooks")]
+pub mod verif_hooks {
+    use super::Compound;
+
+    /// A [`Compound`] iterator in an arbitrary state.
+    pub fn from_state(data: &[u8], offset: usize, is_over: bool) -> Compound<'_> {
+        Compound {
+            data,
+            offset,
+            is_over,
+        }
+    }
+
+    /// The `(offset, is_over)` state of a [`Compound`] iterator.
+    pub fn state(compound: &Compound<'_>) -> (usize, bool) {
+        (compound.offset, compound.is_over)
+    }
+}
